@@ -593,10 +593,22 @@ def rule_p5_producer(f, R):
                         coeff_names.add(tgt.id)  # mixed: will fail the record-order rule
     if not exp_names:
         raise AnalysisError("P5", "unpacking of the row match groups not found", f.where())
+    # names bound by unpacking an already stored record `a, e, c = <records>[k]`: they carry the record's positional roles
+    rec_roles = {}
+    for n in walk_no_nested(fn):
+        if isinstance(n, ast.Assign) and len(n.targets) == 1 and isinstance(n.targets[0], ast.Tuple) and len(n.targets[0].elts) == 3 \
+                and isinstance(n.value, ast.Subscript) and all(isinstance(t_, ast.Name) for t_ in n.targets[0].elts):
+            for t_, role in zip(n.targets[0].elts, "AEC"):
+                rec_roles[t_.id] = role
 
     def roles(expr):
-        names = D.slice_names(expr)
-        r = set()
+        direct = {x.id for x in ast.walk(expr) if isinstance(x, ast.Name)}
+        r = {rec_roles[x] for x in direct if x in rec_roles}
+        rest = [x for x in direct if x not in rec_roles]
+        names = set()
+        for x in rest:
+            names |= D.slice_names(ast.Name(id=x, ctx=ast.Load()))
+        names -= set(rec_roles)
         if any(_is_angmom_table(D, ast.Name(id=x)) for x in names):
             r.add("A")
         if names & exp_names:
@@ -625,7 +637,12 @@ def rule_p5_producer(f, R):
                 found=[sorted(r0), sorted(r1), sorted(r2)])
         # SP / generalized split: the coefficient column index is the enumerate index of the letter loop
         c = tup.elts[2]
-        for sub in ast.walk(c):
+        c_nodes = list(ast.walk(c))
+        for nm_ in [x for x in ast.walk(c) if isinstance(x, ast.Name)]:
+            dv = D.single_assign(nm_.id)
+            if dv is not None:
+                c_nodes.extend(ast.walk(dv))  # the column may be cut out in a named temporary
+        for sub in c_nodes:
             if isinstance(sub, ast.Subscript) and isinstance(sub.slice, ast.Tuple) and len(sub.slice.elts) == 2:
                 col = sub.slice.elts[1]
                 colnames = {x.id for x in ast.walk(col) if isinstance(x, ast.Name)}
@@ -896,20 +913,52 @@ def rule_pyscf(repo, f, R):
     R.check(okb, "PYSCF", f.site, "shell records of " + ast.unparse(src), "shell records must come from mol._basis[atom]",
             where=f.where(inner), expected=f"mol._basis[{atom_v}]", found=ast.unparse(src))
 
+    tuple_defs = {}
+    for st_ in ast.walk(fn):
+        if isinstance(st_, ast.Assign) and len(st_.targets) == 1 and isinstance(st_.targets[0], ast.Tuple) and isinstance(st_.value, ast.Tuple) \
+                and len(st_.targets[0].elts) == len(st_.value.elts):
+            for t_, v_ in zip(st_.targets[0].elts, st_.value.elts):
+                if isinstance(t_, ast.Name):
+                    tuple_defs.setdefault(t_.id, []).append(v_)
+
+    def one_def(name):
+        v = D.single_assign(name)
+        if v is None and len(tuple_defs.get(name, [])) == 1 and name not in (atom_v, coord_v, shell_v):
+            v = tuple_defs[name][0]
+        return v
+
     def resolve(e):
         seen = 0
         while isinstance(e, ast.Name) and seen < 5:
-            v = D.single_assign(e.id)
+            v = one_def(e.id)
             if v is None:
                 break
             e = v
             seen += 1
         return e
 
+    def deep(e, depth=0):
+        """names replaced by their (single) definitions throughout the expression"""
+        import copy
+
+        class Sub(ast.NodeTransformer):
+            def visit_Name(self, n):
+                v = one_def(n.id) if isinstance(n.ctx, ast.Load) else None
+                if v is not None and depth < 4:
+                    return deep(copy.deepcopy(v), depth + 1)
+                return n
+        return Sub().visit(copy.deepcopy(e)) if e is not None else None
+
     def strip_array(e):
         e = resolve(e)
-        while isinstance(e, ast.Call) and dotted(e.func) in ("np.array", "np.asarray", "numpy.array") and e.args:
-            e = resolve(e.args[0])
+        while True:
+            if isinstance(e, ast.Call) and dotted(e.func) in ("np.array", "np.asarray", "numpy.array", "np.ascontiguousarray") and e.args:
+                e = resolve(e.args[0])
+                continue
+            if isinstance(e, ast.Call) and isinstance(e.func, ast.Attribute) and e.func.attr == "copy" and not e.args:
+                e = resolve(e.func.value)
+                continue
+            break
         return e
 
     ang = strip_array(amap.get("angmom"))
@@ -922,7 +971,7 @@ def rule_pyscf(repo, f, R):
     def table_col(e):
         if isinstance(e, ast.Subscript) and isinstance(e.slice, ast.Tuple) and len(e.slice.elts) == 2:
             rows, col = e.slice.elts
-            base = strip_array(e.value)
+            base = deep(strip_array(e.value))
             return ast.unparse(base), ast.unparse(rows), ast.unparse(col)
         return None
 
